@@ -272,18 +272,21 @@ impl ConsensusThread {
             }
             // route golden tickets to peers
             if gt_result.is_some() && !gt_propagated {
-                self.network
-                    .propagate_transaction(gt_result.as_ref().unwrap())
-                    .await;
-                debug!(
-                    "propagating gt : {:?} to peers",
-                    hash(&gt_result.unwrap().serialize_for_net()).to_hex()
-                );
-                let (_, propagated) = mempool
+                // (the bundler drops a pooled ticket that does not solve the tip: only what is still
+                // pooled is passed on)
+                if let Some((_, propagated)) = mempool
                     .golden_tickets
                     .get_mut(&blockchain.get_latest_block_hash())
-                    .unwrap();
-                *propagated = true;
+                {
+                    self.network
+                        .propagate_transaction(gt_result.as_ref().unwrap())
+                        .await;
+                    debug!(
+                        "propagating gt : {:?} to peers",
+                        hash(&gt_result.unwrap().serialize_for_net()).to_hex()
+                    );
+                    *propagated = true;
+                }
             }
             return true;
         }
